@@ -23,4 +23,10 @@ def jobs(tier):
                          bounds=f"K={k} rules, each of symbolic type send/receive/own with all attributes symbolic (strings NULL or 2 symbolic bytes, "
                                 "fd ranges full 32-bit); message: type 1..4, reply_serial/n_fds 32-bit, 6 header strings NULL or <=3 symbolic bytes",
                          shape=f"{nm}, K={k}", cost=1 + k * k))
+    for ng in (0, 1, 2):
+      J.append(Job(name=f"e.context_order.G{ng}", group="C06.e", harness="harness/C06_context.c", defines={"NG": ng}, real=REAL, env=["assert_stubs.c", "mem.c", "pool_lock.c"],
+                 checks="assert", unwind=9, unwindset=["remove_rules_by_type_up_to.0:1"], timeout=600, encodes=["bus_policy_create_client_policy", "add_list_to_client", "bus_client_policy_append_rule",
+                 "bus_client_policy_optimize"], stubs=["uid/gid hash tables = 1-entry symbolic maps", "unix groups / uid / at_console = symbolic"],
+                 bounds="one rule per context (default, one group list, one user list, console true/false, mandatory), NG groups per connection (0..2), uid/gid 32-bit symbolic",
+                 shape=f"context order, {ng} groups"))
     return J
